@@ -37,7 +37,8 @@ git -C /repo apply $D/patch.diff || { echo "patch does not apply to /repo"; [ $D
 ./check $P > $D/check.out 2>&1; R=$?
 git -C /repo checkout -- .
 [ $DIRTY -eq 1 ] && git -C /repo stash pop -q
-# evidence/<id>.json is rewritten by every run: refresh it on the unchanged tree
+# evidence/<id>.json is rewritten by every run: refresh it (and the regenerated fragments) on the unchanged tree
+python3 tools/translate.py all > /dev/null 2>&1
 ./check $P > /dev/null 2>&1
 echo "check rc=$R"; grep -E "VIOLATION|KNOWN|OK property" $D/check.out | head -5
 echo "$R" > $D/check.rc
